@@ -1,4 +1,7 @@
-(* ScheduleSweep.v — the two complete sweeps of C19 (kept apart: they take a minute). *)
+(* ScheduleSweep.v — the two complete sweeps of C19 (kept apart: they take a couple of minutes).
+   Both run over ONE FULL PERIOD of the Gregorian calendar (400 years = 146 097 days = 20 871 weeks exactly,
+   days 0 … 146 096 = 1970-01-01 … 2369-12-31); Proofs/ScheduleProofs.v lifts them to every day in Z by
+   periodicity. *)
 From Coq Require Import ZArith List Bool Lia.
 From Alator Require Import Model.Schedule.
 Import ListNotations.
@@ -13,13 +16,13 @@ Definition lbd_should_trade_day (d : Z) : bool :=
   else if is_weekend d then false
   else lbd_look_day d 1 && lbd_look_day d 2 && lbd_look_day d 3.
 
-(* Complete sweeps over 1970-01-01 … 2199-12-31 (84 006 days), evaluated by the kernel's VM. *)
+(* Complete sweeps over one calendar period, evaluated by the kernel's VM. The calendar walk covers one more
+   day than the period so that every day of the period also has its successor checked. *)
 Lemma calendar_sweep :
-  calendar_agrees (Z.to_nat (supported_days + 40)) 0 (1970, 1, 1) = true.
+  calendar_agrees (Z.to_nat (cycle_days + 1)) 0 (1970, 1, 1) = true.
 Proof. vm_cast_no_check (eq_refl true). Qed.
 
 Lemma spec_sweep :
   forallb (fun d => Bool.eqb (lbd_should_trade_day d) (spec_last_business_day d))
-    (zrange (Z.to_nat supported_days) 0) = true.
+    (zrange (Z.to_nat cycle_days) 0) = true.
 Proof. vm_cast_no_check (eq_refl true). Qed.
-
